@@ -21,6 +21,7 @@ from harness.common import TranslateError, ast_digest, src_text
 
 PURE_TREE_METHODS = {'_serialise', 'serialise', 'serialize', 'export', 'has_children', 'is_root'}
 WRITER_METHODS = {'_serialise', 'serialise', 'serialize', 'export'}
+PURE_STR_METHODS = {'casefold', 'lower', 'upper', 'strip', 'lstrip', 'rstrip', 'startswith', 'endswith', 'replace', 'encode', 'isspace'}
 MUTATING_METHODS = {'append', 'extend', 'insert', 'pop', 'remove', 'clear', 'sort', 'reverse', 'edit', 'set_key',
                     'merge_children', 'ensure_exists', '__setitem__', '__delitem__', '__iadd__', 'popitem',
                     'update', 'setdefault'}
@@ -253,6 +254,9 @@ def census(fn: ast.FunctionDef, self_name: str) -> tuple[list, list, list]:
                                 raise _err(n, f'.{f.attr}() is taken as pure but is not a one-line pure predicate')
                     elif f.attr in MUTATING_METHODS:
                         muts.append(n.lineno)
+                    elif f.attr in PURE_STR_METHODS and isinstance(f.value, ast.Attribute) \
+                            and f.value.attr in ('_real_name', 'real_name', 'name', '_folded_name'):
+                        pass        # a str method on the name of a node: strings are immutable
                     else:
                         raise _err(n, f'unclassified method call .{f.attr}() on a tree object')
                 else:
@@ -535,7 +539,8 @@ def tr_serialise(fn: ast.FunctionDef, inner: ast.FunctionDef):
             if c.func.attr == 'write' and len(c.args) == 1 and not c.keywords:
                 tv = ev(c.func.value, st)
                 v = ev(c.args[0], st)
-                seg = v[1] if v[0] == 'text' else [('lit', v[1])] if v[0] == 'str' else [('post', 'unknown text ' + str(v[1])[:40])]
+                seg = v[1] if v[0] == 'text' else [('lit', v[1])] if v[0] == 'str' else \
+                    [('post', 'a text the writer model does not know: ' + ast.unparse(c.args[0])[:40])]
                 target_append(tv, seg, st, s_)
                 return run(rest, st)
         raise _err(s_, f'serialise(): statement not understood: {ast.unparse(s_)[:60]}')
